@@ -228,6 +228,8 @@ EP_OnChecksumReport(e, m) ==
 EP_Handle(e, m, now) ==
   IF e.state = "Shut" THEN e
   ELSE IF e.remote_magic # NoMagic /\ m.mg # e.remote_magic THEN e
+  \* (repaired behaviour) only handshake packets before the own handshake has completed
+  ELSE IF e.state \in {"Init", "Sync"} /\ m.k \notin {"SRq", "SRp"} THEN e
   ELSE
     LET e1 == [e EXCEPT !.t_recv = now]
         e2 == IF e1.notify_sent /\ e1.state = "Run"
